@@ -31,7 +31,21 @@ def ni_rules(chk, ctx):
     fn = repo.method(REL, CLS, "_iterator")
     chk.functions.add(f"multistage.{CLS}._iterator")
     base = f"multistage.{CLS}._iterator"
-    RAM_A, DISK_A = "self._snapshots_in_ram", "self._snapshots_on_disk"
+    pa = shared.param_attrs(repo, CLS)
+    RAM_A, DISK_A = pa.get("snapshots_in_ram", "self._snapshots_in_ram"), pa.get("snapshots_on_disk", "self._snapshots_on_disk")
+    UNIT_ATTRS = (RAM_A[5:], DISK_A[5:])
+    # the generator together with the private helper methods it calls
+    _, cdef = repo.find_class(CLS)
+    meths = {f.name: f for f in cdef.body if isinstance(f, ast.FunctionDef)}
+    scope, todo = [fn], [fn]
+    while todo:
+        g_ = todo.pop()
+        for c_ in ast.walk(g_):
+            if isinstance(c_, ast.Call) and isinstance(c_.func, ast.Attribute) and isinstance(c_.func.value, ast.Name) \
+                    and c_.func.value.id == "self" and c_.func.attr in meths and meths[c_.func.attr] not in scope \
+                    and c_.func.attr.startswith("_") and not c_.func.attr.startswith("__"):
+                scope.append(meths[c_.func.attr])
+                todo.append(meths[c_.func.attr])
 
     def atom(node, pb):
         if isinstance(node, ast.Attribute) and isinstance(node.value, ast.Name) and node.value.id == "self":
@@ -43,15 +57,16 @@ def ni_rules(chk, ctx):
     def maximal(n, parent_arith=False):
         arith = isinstance(n, (ast.BinOp, ast.UnaryOp, ast.Compare))
         if arith and not parent_arith:
-            if any(isinstance(x, ast.Attribute) and x.attr in ("_snapshots_in_ram", "_snapshots_on_disk") for x in ast.walk(n)):
+            if any(isinstance(x, ast.Attribute) and x.attr in UNIT_ATTRS for x in ast.walk(n)):
                 exprs.append(n)
             return
-        if isinstance(n, ast.Attribute) and n.attr in ("_snapshots_in_ram", "_snapshots_on_disk") and not parent_arith:
+        if isinstance(n, ast.Attribute) and n.attr in UNIT_ATTRS and not parent_arith:
             exprs.append(n)
             return
         for ch in ast.iter_child_nodes(n):
             maximal(ch, arith)
-    maximal(fn)
+    for g_ in scope:
+        maximal(g_)
     for k, e in enumerate(sorted(exprs, key=lambda x: (x.lineno, x.col_offset))):
         cons = f"{base}#units-expr[{k}]"
         pb = PolyBuilder(atom)
@@ -85,12 +100,7 @@ def ni_rules(chk, ctx):
     # (b) label taint: names holding a label may only be used as storage arguments of actions
     tainted = set()
     label_funcs = set()
-    for n in ast.walk(fn):
-        if isinstance(n, ast.FunctionDef) and n is not fn:
-            for r in ast.walk(n):
-                if isinstance(r, ast.Return) and r.value is not None and any(
-                        isinstance(x, ast.Attribute) and x.attr == "_storage" for x in ast.walk(r.value)):
-                    label_funcs.add(n.name)
+    label_tuple_funcs = {}      # nested function -> positions of its returned tuple that carry a label
 
     def is_label_expr(e):
         if isinstance(e, ast.Subscript) and isinstance(e.value, ast.Attribute) and e.value.attr == "_storage":
@@ -106,6 +116,27 @@ def ni_rules(chk, ctx):
                 if n.targets[0].id not in tainted:
                     tainted.add(n.targets[0].id)
                     changed = True
+            # a, b, c = helper()  where helper returns a tuple with a label at some positions
+            if isinstance(n, ast.Assign) and len(n.targets) == 1 and isinstance(n.targets[0], ast.Tuple) \
+                    and isinstance(n.value, ast.Call) and isinstance(n.value.func, ast.Name) and n.value.func.id in label_tuple_funcs:
+                for k in label_tuple_funcs[n.value.func.id]:
+                    if k < len(n.targets[0].elts) and isinstance(n.targets[0].elts[k], ast.Name) \
+                            and n.targets[0].elts[k].id not in tainted:
+                        tainted.add(n.targets[0].elts[k].id)
+                        changed = True
+        # nested functions that return a label, alone or inside a tuple
+        for d in ast.walk(fn):
+            if isinstance(d, ast.FunctionDef) and d is not fn:
+                for r in ast.walk(d):
+                    if isinstance(r, ast.Return) and r.value is not None:
+                        if isinstance(r.value, ast.Tuple):
+                            pos = {k for k, e in enumerate(r.value.elts) if is_label_expr(e)}
+                            if pos - label_tuple_funcs.get(d.name, set()):
+                                label_tuple_funcs[d.name] = label_tuple_funcs.get(d.name, set()) | pos
+                                changed = True
+                        elif is_label_expr(r.value) and d.name not in label_funcs:
+                            label_funcs.add(d.name)
+                            changed = True
     allowed = set()
     for n in ast.walk(fn):
         if isinstance(n, ast.Yield) and isinstance(n.value, ast.Call) and isinstance(n.value.func, ast.Name):
@@ -124,7 +155,8 @@ def ni_rules(chk, ctx):
         if not ok:
             # defining occurrences: RHS of an assignment to a tainted name / return of a label function
             ok = any(isinstance(p, ast.Assign) and p.value is n and isinstance(p.targets[0], ast.Name) for p in ast.walk(fn)) or \
-                any(isinstance(p, ast.Return) and p.value is n for p in ast.walk(fn))
+                any(isinstance(p, ast.Return) and (p.value is n or (isinstance(p.value, ast.Tuple) and any(e is n for e in p.value.elts)))
+                    for p in ast.walk(fn))
         uses += 1
         cons = f"{base}#label-use[{uses - 1}]"
         chk.decide("C14.NI", cons, True if ok else False,
@@ -280,6 +312,7 @@ def weights_rules(chk, ctx):
     repo = ctx.repo
     fn = repo.func(REL, "allocate_snapshots")
     base = "multistage.allocate_snapshots"
+    import copy
     handlers = {}
     for n in fn.body:
         if isinstance(n, ast.FunctionDef):
@@ -287,16 +320,66 @@ def weights_rules(chk, ctx):
                 if isinstance(d, ast.Call) and isinstance(d.func, ast.Attribute) and d.func.attr == "register" and d.args \
                         and isinstance(d.args[0], ast.Name):
                     handlers[d.args[0].id] = n
-    missing = ACTIONS - set(handlers)
-    chk.decide("C14.WEIGHTS", base + "#registry", True if not missing else False,
-               f"handlers registered for {sorted(handlers)}" + (f"; missing {sorted(missing)}: the dry run raises TypeError" if missing else ""),
-               rel=REL, node=fn, nontrivial=False)
     cursor = None
     for n in ast.walk(fn):
         if isinstance(n, ast.Nonlocal):
             cursor = n.names[0]
+    form = "singledispatch registry"
+    if not handlers:
+        # second form: the actions of the dry run are dispatched by an isinstance chain inside the loop that walks the
+        # scratch schedule; the handler of a kind is the loop body specialised to that kind
+        loop, var = None, None
+        for n in ast.walk(fn):
+            if isinstance(n, (ast.For, ast.While)):
+                tested = {x.args[0].id for x in ast.walk(n) if isinstance(x, ast.Call) and getattr(x.func, "id", None) == "isinstance"
+                          and len(x.args) == 2 and isinstance(x.args[0], ast.Name)}
+                if len(tested) == 1:
+                    loop, var = n, tested.pop()
+        if loop is not None:
+            def kinds_of(e):
+                if isinstance(e, ast.Name):
+                    return {e.id}
+                if isinstance(e, ast.Tuple):
+                    return {x.id for x in e.elts if isinstance(x, ast.Name)}
+                return set()
+
+            class Spec(ast.NodeTransformer):
+                def __init__(self, kind):
+                    self.kind = kind
+
+                def visit_Call(self, node):
+                    self.generic_visit(node)
+                    if getattr(node.func, "id", None) == "isinstance" and len(node.args) == 2 and isinstance(node.args[0], ast.Name) \
+                            and node.args[0].id == var:
+                        return ast.copy_location(ast.Constant(self.kind in kinds_of(node.args[1])), node)
+                    return node
+
+                def visit_Break(self, node):
+                    return ast.copy_location(ast.Return(None), node)
+            body = [b for b in loop.body if not (isinstance(b, ast.Assign) and isinstance(b.value, ast.Call)
+                                                 and getattr(b.value.func, "id", None) == "next")]
+            for kind in sorted(ACTIONS):
+                sb = [Spec(kind).visit(copy.deepcopy(b)) for b in body]
+                h = ast.FunctionDef(name=f"on_{kind}", args=ast.arguments(posonlyargs=[], args=[ast.arg(var)], kwonlyargs=[],
+                                                                            kw_defaults=[], defaults=[]),
+                                    body=sb or [ast.Pass()], decorator_list=[], returns=None, type_comment=None, type_params=[])
+                ast.copy_location(h, loop)
+                ast.fix_missing_locations(h)
+                handlers[kind] = h
+            incs = [a.target.id for a in ast.walk(loop) if isinstance(a, ast.AugAssign) and isinstance(a.target, ast.Name)
+                    and isinstance(a.value, ast.Constant) and a.value.value == 1]
+            cursor = incs[0] if incs and len(set(incs)) == 1 else None
+            form = "isinstance chain in the dry-run loop"
+    if not handlers:
+        chk.decide("C14.WEIGHTS", base + "#registry", None, "no dispatch of the dry-run actions recognised (singledispatch registry or "
+                   "isinstance chain)", rel=REL, node=fn)
+        return
+    missing = ACTIONS - set(handlers)
+    chk.decide("C14.WEIGHTS", base + "#registry", True if not missing else False,
+               f"{form}: handlers for {sorted(handlers)}" + (f"; missing {sorted(missing)}: the dry run raises TypeError" if missing else ""),
+               rel=REL, node=fn, nontrivial=False)
     if cursor is None:
-        chk.decide("C14.WEIGHTS", base + "#cursor", None, "slot cursor (nonlocal) not found", rel=REL, node=fn)
+        chk.decide("C14.WEIGHTS", base + "#cursor", None, "slot cursor not found", rel=REL, node=fn)
         return
     C = Lin.sym(cursor)
     OLD = Lin.sym("$old")
@@ -306,7 +389,9 @@ def weights_rules(chk, ctx):
     for act, h in sorted(handlers.items()):
         if act not in expect:
             continue
+        pname = h.args.args[0].arg if h.args.args else "cp_action"
         for cond, dcur, nadd, off in expect[act]:
+            cond = {k.replace("cp_action.", pname + "."): v for k, v in cond.items()}
             st = State()
             st.add_eq(OLD - C)
             st.add_ineq(C + ONE)          # cursor >= -1
@@ -334,8 +419,10 @@ def weights_rules(chk, ctx):
             adds = [(t, s) for t, s in it.substores if isinstance(t.value, ast.Name) and t.value.id == "weights"
                     and not s.bottom]
             # which weight is added: the AugAssign statements of the handler on `weights[...]`
+            reached = {id(t) for t, _ in adds}
             added = [a.value.id for a in ast.walk(h) if isinstance(a, ast.AugAssign) and isinstance(a.target, ast.Subscript)
-                     and isinstance(a.target.value, ast.Name) and a.target.value.id == "weights" and isinstance(a.value, ast.Name)]
+                     and isinstance(a.target.value, ast.Name) and a.target.value.id == "weights" and isinstance(a.value, ast.Name)
+                     and id(a.target) in reached]      # only the updates reached under the condition considered
             want_w = {"Forward": "write_weight", "Copy": "read_weight", "Move": "read_weight"}.get(act)
             if want_w and (nadd is None or nadd >= 1) and adds:
                 chk.decide("C14.WEIGHTS", cons + "/kind", True if want_w in added else False,
